@@ -365,3 +365,36 @@ def opaque_stats(ctx):
             if hasattr(m, "math"):
                 ctx.patch(m, "math", shims.MathStub())
         ctx.patch(mod("bloom"), "int", shims.IntShimOpaque)
+
+
+def pack_le(ctx, fields):
+    """blob from (value, size_in_bytes) fields, little-endian two's complement - the documented C layout, written independently
+    of the library's struct calls"""
+    if ctx.sym:
+        from .shims import SymBytes
+        chunks = []
+        for v, n in fields:
+            if not isinstance(v, int) and getattr(v, "lo", 0) is not None and (v.lo is None or v.lo < 0):
+                v = v % (1 << (8 * n))
+            elif isinstance(v, int) and v < 0:
+                v += 1 << (8 * n)
+            chunks.append((v, n, False))
+        return SymBytes(chunks)
+    out = b""
+    for v, n in fields:
+        out += (int(v) % (1 << (8 * n))).to_bytes(n, "little")
+    return out
+
+
+def f32_fields(x):
+    """the 4 bytes of a concrete float as IEEE binary32, little-endian"""
+    import struct
+    return [(b, 1) for b in struct.pack("<f", x)]
+
+
+def u_cells(ctx, blob, size, count, offset=0, signed=False):
+    """decode `count` little-endian cells of `size` bytes starting at byte offset - the reference reader's view of a file"""
+    if hasattr(blob, "cells"):
+        return blob[offset:offset + size * count].cells(size, signed=signed)
+    raw = bytes(blob)
+    return [int.from_bytes(raw[offset + i * size: offset + (i + 1) * size], "little", signed=signed) for i in range(count)]
